@@ -152,6 +152,8 @@ func c02ConsumerSorts(fn *types.Func, arg int) string {
 func runC02(c *Ctx) {
 	c02EnumOrder(c)
 	c02BoundedAppend(c, c.P.ModulePkgs())
+	c02NamePromisesSort(c)
+	c02WalkOrderSorted(c)
 	p := c.P
 	bindModuleSortFunc(p)
 	c.Rule("R-MAPORDER", "every iteration over a map in product code has order-insensitive effects, sorts what it appends before use, or is in the reasoned triage table", 110)
